@@ -674,6 +674,8 @@ def _finalize_bool_shapes(ctx, f, r, rets, cfgk):
 def _finalize_rest(ctx, f, run, vals):
     r = run(False, True)
     rets = [v for v, l in r.returns if not tm.is_const(l, False)]
+    # (a conditional expression returns either of its alternatives)
+    rets = [a for v in rets for a in tm.strip_ite(v)]
     ok = bool(rets) and all(v is vals or v is T("list") for v in rets)
     ctx.ob("C18.2", f, ok,
            "list parameters stay lists" if ok else
@@ -1098,13 +1100,30 @@ def _lock(ctx, prog):
     stores = r.of_kind("setitem")
     ok = False
     if raises and stores:
-        ats = tm.atoms(raises[0].live)
-        locked = [a for a in ats if is_call_to(a, ".locked")]
-        new = [a for a in ats if a.op == "cmp" and a.args[0] == "NotIn" and
-               a.args[1] is attr and a.args[2] is selfp]
-        ok = bool(locked) and bool(new) and tm.fold(
-            stores[0].live, lambda t: True if t in (locked[0], new[0])
-            else None) is False
+        # judged in the four worlds (key present?, locked?): the raise is
+        # taken exactly for a new key on a locked container, the store in
+        # the three other worlds — whichever way round the test is written
+        def world(present, lock):
+            def env(a):
+                if is_call_to(a, ".locked"):
+                    return lock
+                if a.op == "cmp" and a.args[0] in ("In", "NotIn") and \
+                        a.args[1] is attr and a.args[2] is selfp:
+                    return present == (a.args[0] == "In")
+                return None
+            return env
+        ok = True
+        for present in (True, False):
+            for lock in (True, False):
+                refuse = (not present) and lock
+                rv = [tm.fold(e.live, world(present, lock)) for e in raises]
+                sv = [tm.fold(e.live, world(present, lock)) for e in stores]
+                if refuse:
+                    ok = ok and any(x is True for x in rv) and \
+                        all(x is False for x in sv)
+                else:
+                    ok = ok and all(x is False for x in rv) and \
+                        any(x is True for x in sv)
     ctx.ob("C18.5", f, ok,
            "locked container: adding a new key raises, nothing is stored"
            if ok else "the settings lock does not prevent new keys",
@@ -1773,9 +1792,13 @@ def _generate(ctx, prog):
     both = any(isinstance(x, int) and not isinstance(x, bool)
                for v_ in pr.values() for x in v_ or ()) and \
         any(isinstance(x, float) for v_ in pr.values() for x in v_ or ())
+    evaluated = [x for v_ in pr.values() for x in v_ or ()]
     ctx.ob("C18.7", g, both,
            "generate and `set` agree on the numeric result types "
-           "(int and float)", key="C18.7:sibling-types", nontrivial=False)
+           "(int and float)", key="C18.7:sibling-types", nontrivial=False,
+           # (no sample token could be evaluated through the conversion
+           # helpers: no evidence about the result types)
+           evidence=bool(evaluated))
 
 
 VARIANTS = [
